@@ -126,4 +126,10 @@ theorem msg_export_indices_written (s : Sparse) (scripts : List (Nat × List Ins
 theorem msgHeaderLen_pos (hasFlags : Bool) (m : MsgFile) : 0 < msgHeaderLen hasFlags m := by
   unfold msgHeaderLen; omega
 
+/-- non-vacuity: two scripts (each just its end marker) after a 12-byte header get the offsets 12 and 16, and a
+table `[0 -> s0, default -> s1]` of length 3 lists script 1 at the entries 1 and 2 -/
+example : ∃ sb offs, writeScripts .msg 12 [(0, []), (1, [])] = .ok (sb, offs) ∧ lookupNat 1 offs = some 16 ∧ lookupNat 0 offs = some 12 :=
+  ⟨_, _, rfl, rfl, rfl⟩
+example : indicesOf (Sparse.densify ⟨some 3, [(0, ⟨some 0, 0⟩)], ⟨some 1, 0⟩⟩) 1 = [1, 2] := by decide
+
 end TruthModel.C18
